@@ -413,9 +413,9 @@ def build_st_carrier(build, outdir, fam):
 # ---------------------------------------------------------------------------------------------------------------
 # casefold (carriers `cf`, `cfs`)
 # ---------------------------------------------------------------------------------------------------------------
-CF_CARRIERS = {"nonstrict": ("cf", "-t ext4 -b 1024 -N 512 -O casefold,metadata_csum,64bit -J size=1"),
-               "strict": ("cfs", "-t ext4 -b 1024 -N 512 -O casefold,metadata_csum,64bit -J size=1 -E encoding_flags=strict")}
-CF_KB = 8192
+CF_CARRIERS = {"nonstrict": ("cf", "-t ext4 -b 1024 -N 256 -O casefold,metadata_csum,64bit -J size=1"),
+               "strict": ("cfs", "-t ext4 -b 1024 -N 256 -O casefold,metadata_csum,64bit -J size=1 -E encoding_flags=strict")}
+CF_KB = 4096
 CASEFOLD_FL = 0x40000000
 
 
@@ -462,11 +462,13 @@ def cf_names(kind, size):
     groups = 2 if size == "one_block" else 36
     out = []
     for i in range(groups):
-        for nm in NAME_KINDS[kind](i):
+        grp = NAME_KINDS[kind](i)
+        pad = b"-" + b"p" * (CF_PAD - max(len(nm) for nm in grp))       # the same padding for the names of one group: twins stay twins
+        for nm in grp:
             if size == "indexed":
                 # pad in the middle (after the counter the kind's significant bytes may have to stay last)
                 cut = nm.index(b"%03d" % i) + 3
-                nm = nm[:cut] + b"-" + b"p" * (CF_PAD - len(nm)) + nm[cut:]
+                nm = nm[:cut] + pad + nm[cut:]
             out.append(nm)
     return out
 
@@ -515,24 +517,35 @@ def build_cf_carrier(build, outdir, mode, fam, univ):
     if rc != 0:
         raise RuntimeError("mke2fs -d failed for casefold carrier %s: %s" % (cname, err.decode("utf8", "replace")[-400:]))
     dbg = os.path.join(build, "debugfs", "debugfs")
-    # the casefold flag goes on while the directory is linear (no stored hash depends on it yet)
-    P = ext4read.project(lin)
-    if "fatal" in P or "reader_err" in P:
-        raise RuntimeError("reader cannot project casefold carrier %s" % cname)
-    byino = {i["ino"]: i for i in P["inodes"]}
-    ino_of = {t["path"]: t["ino"] for t in P["tree"]}
-    cmds = []
-    for dn, info in sorted(meta.items()):
-        if info["folded"]:
-            ino = ino_of["/cf/" + dn]
-            cmds.append("set_inode_field <%d> flags 0x%x" % (ino, _flagbits(byino[ino]) | CASEFOLD_FL))
-    rc, out, err = run([dbg, "-w", "-f", "-", lin], env=env, timeout=120, input=("\n".join(cmds) + "\n").encode())
-    if rc != 0:
-        raise RuntimeError("debugfs set_inode_field failed on %s" % cname)
+
+    def set_casefold(img, which):
+        """set the casefold flag on the family directories selected by which(info)"""
+        P = ext4read.project(img)
+        if "fatal" in P or "reader_err" in P:
+            raise RuntimeError("reader cannot project casefold carrier %s" % cname)
+        byino = {i["ino"]: i for i in P["inodes"]}
+        ino_of = {t["path"]: t["ino"] for t in P["tree"]}
+        cmds = ["set_inode_field <%d> flags 0x%x" % (ino_of["/cf/" + dn], _flagbits(byino[ino_of["/cf/" + dn]]) | CASEFOLD_FL)
+                for dn, info in sorted(meta.items()) if info["folded"] and which(info)]
+        rc, out, err = run([dbg, "-w", "-f", "-", img], env=env, timeout=120, input=("\n".join(cmds) + "\n").encode())
+        if rc != 0:
+            raise RuntimeError("debugfs set_inode_field failed on %s" % cname)
+    # The casefold flag goes on while the directory is linear (no stored hash depends on it yet).
+    # The hash of a name that cannot be folded -- not valid UTF-8 -- is by definition of the format the hash of its bytes (kernel:
+    # ext4fs_dirhash falls back to the opaque name when utf8_casefold fails), i.e. the very hash an index built WITHOUT the flag
+    # stores.  For the `rehashed` layouts the directories whose names are all of an invalid kind are therefore indexed first and
+    # flagged afterwards: the result is the htree the kernel builds for such a directory, obtained without relying on the folded
+    # hashing of the tools under test.
+    opaque = lambda info: info["kind"] in invalid
+    raw = os.path.join(outdir, cname + "_raw.img")
+    shutil.copyfile(lin, raw)
+    set_casefold(lin, lambda info: True)
     imgs = [("linear", lin)]
     reh = os.path.join(outdir, cname + "_rehashed.img")
-    shutil.copyfile(lin, reh)
+    os.replace(raw, reh)
+    set_casefold(reh, lambda info: not opaque(info))
     rc, out, err = run([os.path.join(build, "e2fsck", "e2fsck"), "-fyD", reh], env=env, timeout=600)
+    set_casefold(reh, opaque)
     imgs.append(("rehashed", reh))
     gro = os.path.join(outdir, cname + "_rehashed_then_grown.img")
     shutil.copyfile(reh, gro)
@@ -583,7 +596,7 @@ def cf_measure(P, meta, img):
     byino = {i["ino"]: i for i in P["inodes"]}
     dirs = {d["dir"]: d for d in P["dirs"]}
     ino_of = {t["path"]: t["ino"] for t in P["tree"]}
-    got = {"dirs": len(meta), "folded": 0, "folded_htree": 0, "plain_htree": 0, "dirs_with_invalid_utf8_names": 0, "folded_dirs_with_invalid_utf8_names": 0,
+    got = {"dirs": len(meta), "folded": 0, "folded_htree": 0, "plain_htree": 0, "dirs_with_invalid_utf8_names": 0, "folded_dirs_with_invalid_utf8_names": 0, "folded_htree_with_invalid_utf8_names": 0,
            "dirs_with_names_differing_only_in_case_or_normalisation": 0, "s_encoding": enc, "strict": encfl & 1}
     for dn, info in meta.items():
         ino = ino_of.get("/cf/" + dn)
@@ -598,6 +611,7 @@ def cf_measure(P, meta, img):
         inval = any(not _is_utf8(n) for n in names)
         got["dirs_with_invalid_utf8_names"] += inval
         got["folded_dirs_with_invalid_utf8_names"] += (inval and fold)
+        got["folded_htree_with_invalid_utf8_names"] += (inval and fold and ht)
         keys = {}
         for n in names:
             if _is_utf8(n):
@@ -770,7 +784,7 @@ def family_images(build, univ, tier):
     bad = [(x["name"], x["fsck_n"], x["fsck_tail"][-200:]) for x in allimgs if x["fsck_n"] != 0]
     if tier == "quick":
         ok = [x for x in ok if x["name"] in ("e4_linear", "e4_rehashed_then_grown", "e3_linear", "up_linear", "st_shaped",
-                                             "cf_linear", "cf_rehashed_then_grown", "cfs_linear", "cfs_rehashed_then_grown")]
+                                             "cf_linear", "cf_rehashed", "cfs_linear", "cfs_rehashed")]
     note = {"images": {x["name"]: x["measured"] for x in ok}, "fsck_n_of_tree_under_test_not_clean": bad,
             "entry_counts_e4": {"%s/%d" % (e, n): entry_count(e, n, 12) for e, n, c in sorted(set((e, n, "x") for e, n, c in map(tuple, famlist)))}}
     return ok, note
